@@ -23,9 +23,10 @@ def emit(pid, title, imports, items, examples=""):
     cache = {}
     lines = ["(** %s. %s" % (pid, title),
              "    This file only pins statements: every theorem restates a lemma of proofs/ verbatim and is closed by it. *)",
-             ("From CacheD Require Import Base Locks.\nLocal Open Scope nat_scope." if "LocksProofs" in imports else
+             ("From CacheD Require Import Base Ledger." if "LedgerProofs" in imports else
+              "From CacheD Require Import Base Locks.\nLocal Open Scope nat_scope." if "LocksProofs" in imports else
               "From CacheD Require Import Base Sketch Model%s." % (" Ack" if "AckProofs" in imports else "")),
-             "From CacheD.proofs Require Import %s." % " ".join(["Closing"] + [i for i in imports if i not in ("Closing",)]) if ("AckProofs" not in imports and "LocksProofs" not in imports)
+             "From CacheD.proofs Require Import %s." % " ".join(["Closing"] + [i for i in imports if i not in ("Closing",)]) if ("AckProofs" not in imports and "LocksProofs" not in imports and "LedgerProofs" not in imports)
              else "From CacheD.proofs Require Import %s." % " ".join(imports), ""]
     for mod, lemma, suffix in items:
         if mod not in cache:
@@ -33,11 +34,11 @@ def emit(pid, title, imports, items, examples=""):
         if lemma not in cache[mod]:
             raise SystemExit("no STATEMENT lemma %s in %s" % (lemma, mod))
         comment, stmt = cache[mod][lemma]
-        name = "%s_%s" % (pid, suffix or lemma)
+        name = "%s_%s" % (pid.split("_")[0] if pid.endswith("_ledger") else pid, suffix or lemma)
         if comment:
             lines.append("(** %s *)" % comment)
         lines.append("Theorem %s :\n  %s." % (name, stmt))
-        if "AckProofs" in imports or "LocksProofs" in imports:
+        if "AckProofs" in imports or "LocksProofs" in imports or "LedgerProofs" in imports:
             lines.append("Proof. exact %s. Qed." % lemma)
         else:
             lines.append("Proof. close_with %s. Qed." % lemma)
@@ -58,6 +59,10 @@ def spec(pid, title, imports, items, examples=""):
 
 A, I, P, K, W, H, T = "AdmissionProofs", "InvProofs", "ApiProofs", "AckProofs", "SweepProofs", "HistoryProofs", "StatsProofs"
 
+spec("C01_ledger", "Total weight never exceeds the configured cache weight: every interleaving of the individual ledger actions", ["LedgerProofs"], [
+    ("LedgerProofs", "ledger_bounded", "all_interleavings"), ("LedgerProofs", "ledger_exact_when_quiet", None),
+    ("LedgerProofs", "ledger_add_within_limit", None),
+])
 spec("C01", "Total weight never exceeds the configured cache weight", [I, A], [
     (A, "used_bounded_step", None), (A, "used_bounded_run", None), (I, "used_nonneg", None),
     (A, "accepted_put_within_limit_admissible", None), (A, "accepted_put_within_limit_partial", None),
@@ -97,8 +102,10 @@ spec("C10", "The sweeper removes exactly the expired keys and reclaims their wei
     (W, "sweep_exact", None), (W, "sweep_spares", None), (W, "sweep_removes_due", "sweep_eventually"), (W, "stale_entry_inert", None),
     (W, "C10_starved_shard", "known_finding_starved_shard"),
 ])
-spec("C03", "No spurious loss: without memory pressure an accepted key stays readable", [I, W], [
-    (W, "step_preserves_entry", None), (W, "now_monotone", None), (W, "no_spurious_loss", "no_spurious_loss_partial"),
+spec("C03", "No spurious loss: without memory pressure an accepted key stays readable", [I, W, "DemandProofs"], [
+    (W, "step_preserves_entry", None), (W, "now_monotone", None), (W, "no_spurious_loss", "no_spurious_loss_per_put"),
+    ("DemandProofs", "fitting_demand_no_pressure", None), ("DemandProofs", "step_preserves_entry_real", None),
+    ("DemandProofs", "no_spurious_loss_fitting_demand", None),
 ])
 
 spec("C02", "Reads return only the current value of the key, never stale or foreign", [P, H], [
